@@ -36,6 +36,10 @@ impl Drop for Tag {
     }
 }
 
+pub fn log_drop(id: u32) {
+    disarmed(|| DROPS.with(|d| d.borrow_mut().push(id)));
+}
+
 pub fn take_drops() -> Vec<u32> {
     DROPS.with(|d| std::mem::take(&mut *d.borrow_mut()))
 }
